@@ -391,6 +391,8 @@ def _zero_check(b, what):
 def truediv(a, b):
     if _conc(a) and _conc(b):
         import numpy as np
+        if type(a).__name__ == "SpVal" or type(b).__name__ == "SpVal":
+            return a / b        # analytic mode: a symbolic quotient (no ZeroDivisionError path)
         if isinstance(a, (np.floating, np.ndarray)) or isinstance(b, (np.floating, np.ndarray)):
             return a / b
         if b == 0:
